@@ -678,6 +678,9 @@ func (g *Gen) famAol() {
 				fp := ""
 				if r.Chance(0.25) {
 					fp = g.addr(r.Intn(NumAccounts))
+					if r.Chance(0.35) {
+						fp = t[0] // the topic's owner sponsors its writer
+					}
 				}
 				spec := &TxSpec{Msgs: []MsgSpec{g.recordSpec(t[0], t[1], w, fp)}}
 				if fp != "" && fp != w && r.Chance(0.3) {
@@ -1023,6 +1026,9 @@ func (g *Gen) famDidAdv() {
 		g.tx(forged)
 	case 18, 19: // C11, a third identifier: every method id carries the did field's prefix, only the document's own id names something else
 		x := []string{g.env.Dids[other], caseVariant(did, r), "did:panacea:" + strings.Repeat("1", 32), "not-a-did", did + "x", did[:len(did)-1]}[r.Intn(6)]
+		// crossed naming: the listed methods are named under the did field, every relationship is a method embedded
+		// under the document's own (other) id, so each per-entry prefix check finds the prefix it looks for
+		crossed := r.Chance(0.45)
 		if r.Chance(0.5) {
 			fresh := g.env.Dids[other]
 			if x == fresh {
@@ -1030,10 +1036,18 @@ func (g *Gen) famDidAdv() {
 			}
 			doc := g.didDoc(fresh, []int{other}, 0)
 			doc.Id = x
-			g.tx(MsgSpec{T: "did.Create", F: map[string]string{"did": fresh, "from": from}, Doc: doc, Proof: &ProofSpec{Key: other, MethodID: fmt.Sprintf("%s#key%d", fresh, other), Seq: "0"}})
+			pmid := fmt.Sprintf("%s#key%d", fresh, other)
+			if crossed {
+				doc.Auth = []RelSpec{{VM: &VMSpec{Id: x + "#auth1", Type: "EcdsaSecp256k1VerificationKey2019", Controller: x, Key: other}}}
+				pmid = x + "#auth1"
+			}
+			g.tx(MsgSpec{T: "did.Create", F: map[string]string{"did": fresh, "from": from}, Doc: doc, Proof: &ProofSpec{Key: other, MethodID: pmid, Seq: "0"}})
 		} else {
 			doc := g.didDoc(did, []int{k}, 0)
 			doc.Id = x
+			if crossed {
+				doc.Auth = []RelSpec{{VM: &VMSpec{Id: x + "#auth1", Type: "EcdsaSecp256k1VerificationKey2019", Controller: x, Key: k}}}
+			}
 			upd(&ProofSpec{Key: k, MethodID: mid, Seq: "cur"}, doc)
 		}
 	case 17: // rotation that leaves the old key in verificationMethod under the SAME id as the new dedicated authentication method
